@@ -19,6 +19,7 @@ Exit codes: 0 held / 1 violation (``VIOLATION property=<id> replay=<path>``) / 2
 from __future__ import annotations
 
 import argparse
+import asyncio
 import collections
 import hashlib
 import importlib
@@ -281,7 +282,8 @@ class Ctx:
                 raise
             except HarnessError:
                 raise
-            except Exception as e:  # unexpected exception: from tornado => violation, else harness bug
+            except (Exception, asyncio.CancelledError) as e:  # unexpected exception: from tornado => violation, else harness bug
+                # (CancelledError is a BaseException: one escaping from a tornado frame would otherwise end the run as exit 2)
                 where = _innermost_repo_frame(e)
                 if where is not None:
                     clause = "crash.%s@%s" % (type(e).__name__, where)
